@@ -26,7 +26,7 @@ func VerifBuildConfig(tasks map[string]VerifTaskDef, pipelines map[string][]Veri
 	for n, t := range tasks {
 		def.Tasks[n] = &taskDefinition{Command: t.Command, Dir: t.Dir, Env: t.Env, Variables: t.Variables}
 	}
-	for n, p := range pipelines {
+	for n, p := range pipelines { // only fills a map: iteration order is irrelevant
 		for _, s := range p {
 			def.Pipelines[n] = append(def.Pipelines[n], &stageDefinition{Name: s.Name, Task: s.Task, DependsOn: s.DependsOn, Dir: s.Dir, Env: s.Env, Variables: s.Variables})
 		}
